@@ -20,13 +20,13 @@ def plan(tier):
         "required_obligations": ["cdf_mc_family", "cdf_empty", "cdf_single_entry", "cdf_duplicate_values",
                                  "cdf_zero_probability_entry", "cdf_all_zero", "cdf_total_one", "cdf_total_below_one",
                                  "cdf_reduce", "cdf_sample_refused", "cdf_width_refused", "cdf_edge_classes",
-                                 "cdf_from_cdf", "cdf_sample_all_lengths",
+                                 "cdf_from_cdf", "cdf_sample_all_lengths", "cdf_iter_mut",
                                  "model_compute", "model_group_event", "model_empty_group", "model_zero_joint",
                                  "model_single_event", "model_from_marginal", "model_duplicate_universe_entry",
                                  "model_expected_value",
                                  "bf_axis_grid", "bf_threshold_neighbours", "bf_from_logprobs",
                                  "fdr", "fdr_empty", "fdr_ties",
-                                 "integ_linear", "integ_tent", "integ_zero_endpoint",
+                                 "integ_linear", "integ_tent", "integ_peak", "integ_peak_off_centre", "integ_zero_endpoint",
                                  "integ_resolution_wider_than_interval"],
         "rule": "spec->impl: every pmf of length <= 3 over values 0..2 and weights 0..2 (units of 1/8) with a fixed "
                 "script of every query, reduce and sample replayed into the real code; impl->spec: random pmfs "
@@ -38,7 +38,8 @@ def plan(tier):
                 "compute_from_marginal); the Kass-Raftery scale on a grid of quarters over 0..161, negative values, "
                 "infinity, the thresholds and their floating-point neighbours, BayesFactor::new on ratios at and "
                 "around the thresholds; expected_fdr on 0..8 PEPs with ties, zeros and ones; ln_integrate_exp on "
-                "linear and midpoint-tent densities over dyadic intervals and resolutions",
+                "linear densities, tents with the knot at the midpoint and densities symmetric about a mode anywhere in "
+                "the interval, over dyadic intervals and resolutions",
         "bounds": {"mc": "CdfMC: One = 8, every pmf of length <= 3 (thorough 4) over values 0..2 and weights 0..2, every "
                          "query argument, widths k/4, sample on lengths <= 12 (16) with n <= 6 (8); BayesMC: 2 (3) base "
                          "events, prior / likelihood weights 0..2, every universe list of length <= 2 (3) over the "
@@ -53,7 +54,9 @@ def plan(tier):
                         "f64 are trusted",
                         "accuracy demanded: Tol(x) = 2 quanta + |x| / 8192 of the cumulative value a result was derived "
                         "from (the code adds in log space with an approximate exponential of relative error ~1e-5); "
-                        "adaptive integration: 2 quanta + 1/1024 of the area",
+                        "adaptive integration: 2 quanta + 1/4096 of the area, and for a "
+                        "density symmetric about a mode off the first midpoint a shortfall of at most slope * "
+                        "resolution^2 / 4 (the mode ends in a cell narrower than the resolution: IntResult of CdfMC)",
                         "preconditions respected by the generators: total mass of a pmf <= 1 (the code refuses "
                         "overshoot beyond 1e-5), no NaN, from_cdf entries sorted by value with non-decreasing "
                         "cumulative probabilities, Bayesian universes with positive marginal, the expectation of the "
@@ -65,7 +68,9 @@ def plan(tier):
                         "PEPs = any rank inside the tie; the exact choices of the code (stride of sample, reduce on "
                         "sub-tolerance masses, stable rank of ties, one likelihood evaluation per listed member) are "
                         "machine-layer conformance (MODEL-DRIFT, not an alarm)",
-                        "adaptive integration is claimed only for densities whose trapezoid sum does not depend on the "
-                        "grid (linear on the whole interval, or two linear pieces meeting at the midpoint, which is the "
-                        "first grid point added); the quality of the maximum search on skewed densities is not claimed"],
+                        "adaptive integration is claimed for densities that are linear on the whole interval, two linear "
+                        "pieces meeting at the midpoint (the first grid point added), or symmetric about their mode with "
+                        "strictly ordered end values; the maximum search compares the two window ends only, so on skewed "
+                        "densities, or with equal (e.g. zero) values at both ends, it can walk away from the mode: "
+                        "nothing is claimed there"],
     }
